@@ -29,6 +29,7 @@ type Violation struct {
 	Site      string
 	Decisions int
 	PathEnd   string
+	Observed  []string // engine-side observations of the path (under the path's model), for diagnosis
 }
 
 type ValCase struct {
@@ -192,7 +193,7 @@ func (p *Pool) Explore(entry *ssa.Function, opt Options) *Summary {
 						st.Violated++
 						if violPerID[ob.ID] < opt.MaxViolPerID {
 							violPerID[ob.ID]++
-							s.Violations = append(s.Violations, Violation{ID: ob.ID, Model: ob.Model, Site: ob.Site, Decisions: len(res.Decisions)})
+							s.Violations = append(s.Violations, Violation{ID: ob.ID, Model: ob.Model, Site: ob.Site, Decisions: len(res.Decisions), Observed: res.ObservedCanon})
 						}
 					case "undecided":
 						st.Undecided++
